@@ -25,8 +25,20 @@ theorem Delivered.mono {ch : PChain} {evs evs' : List Ev} {k : Nat} (h : Deliver
   obtain ⟨b, hb, h1, h2⟩ := h
   exact ⟨b, hb, hsub _ h1, h2.imp id (hsub _)⟩
 
-/-- Safety invariant.  `h0` = height the node started from, `evs` = events delivered since. -/
-structure Safe (c : Cfg) (ch : PChain) (h0 : Nat) (evs : List Ev) (n : FNode) : Prop where
+/-- data that does not belong to the proposer's block of height `k`: `types.Validate` rejects it against the
+proposer's signed header of that height.  (At a height outside the chain there is nothing to compare with — and no
+header will ever be cached there.)  This is what anybody can gossip over P2P: `types.Data` carries no signature. -/
+def Junk (ch : PChain) (k : Nat) (d : Data) : Prop := ∀ b, ch k = some b → validateData b.sh d ≠ none
+
+/-- a cached data item is genuine — usable for the proposer's block of its height, and sourced from a delivered
+event (the data event, or the header event of an empty block) -/
+def DatOK (ch : PChain) (evs : List Ev) (k : Nat) (d : Data) : Prop :=
+  ∃ b, ch k = some b ∧ GoodData b d ∧ (Ev.dat k ∈ evs ∨ (Ev.hdr k ∈ evs ∧ IsEmpty b))
+
+/-- Safety invariant.  `h0` = height the node started from, `evs` = genuine events delivered since.
+`jk = true`: junk data events (`Junk`) may have been delivered as well, so a cached data item is genuine *or junk*;
+`jk = false` (`Safe`): only genuine events. -/
+structure SafeJ (jk : Bool) (c : Cfg) (ch : PChain) (h0 : Nat) (evs : List Ev) (n : FNode) : Prop where
   alive : n.alive = true
   ge : h0 ≤ n.store.height
   low : c.initialHeight ≤ n.store.height + 1
@@ -37,22 +49,49 @@ structure Safe (c : Cfg) (ch : PChain) (h0 : Nat) (evs : List Ev) (n : FNode) : 
   chain : ∀ k, c.initialHeight ≤ k → k ≤ n.store.height →
     ∃ b sb, ch k = some b ∧ n.store.getBlock k = some sb ∧ SameBlock b sb
   hdrGen : ∀ k sh, (k, sh) ∈ n.hdrCache → ∃ b, ch k = some b ∧ sh = b.sh
-  datGen : ∀ k d, (k, d) ∈ n.datCache → ∃ b, ch k = some b ∧ GoodData b d
+  dat : ∀ k d, (k, d) ∈ n.datCache → (jk = true ∧ Junk ch k d) ∨ DatOK ch evs k d
   hdrSrc : ∀ k, k ∈ keysH n → Ev.hdr k ∈ evs
-  datSrc : ∀ k, k ∈ keysD n → Ev.dat k ∈ evs ∨ (Ev.hdr k ∈ evs ∧ ∃ b, ch k = some b ∧ IsEmpty b)
   sound : ∀ k, h0 < k → k ≤ n.store.height → Delivered ch evs k
   wm : WmOK n.store
 
-variable {c : Cfg} {ch : PChain} {top h0 : Nat} {evs : List Ev} {n : FNode}
+/-- the invariant of runs with genuine events only -/
+abbrev Safe (c : Cfg) (ch : PChain) (h0 : Nat) (evs : List Ev) (n : FNode) : Prop := SafeJ false c ch h0 evs n
 
-theorem Safe.mono (hs : Safe c ch h0 evs n) {evs' : List Ev} (hsub : ∀ e, e ∈ evs → e ∈ evs') :
-    Safe c ch h0 evs' n :=
+variable {c : Cfg} {ch : PChain} {top h0 : Nat} {evs : List Ev} {n : FNode} {jk : Bool}
+
+theorem DatOK.mono {k : Nat} {d : Data} (h : DatOK ch evs k d) {evs' : List Ev} (hsub : ∀ e, e ∈ evs → e ∈ evs') :
+    DatOK ch evs' k d := by
+  obtain ⟨b, hb, hg, hsrc⟩ := h
+  exact ⟨b, hb, hg, hsrc.imp (hsub _) (fun ⟨x, y⟩ => ⟨hsub _ x, y⟩)⟩
+
+/-- without junk every cached data item is usable for the proposer's block of its height … -/
+theorem SafeJ.datGen (hs : SafeJ false c ch h0 evs n) : ∀ k d, (k, d) ∈ n.datCache → ∃ b, ch k = some b ∧ GoodData b d := by
+  intro k d hm
+  rcases hs.dat k d hm with ⟨h, _⟩ | ⟨b, hb, hg, _⟩
+  · cases h
+  · exact ⟨b, hb, hg⟩
+
+/-- … and every cached height was delivered -/
+theorem SafeJ.datSrc (hs : SafeJ false c ch h0 evs n) :
+    ∀ k, k ∈ keysD n → Ev.dat k ∈ evs ∨ (Ev.hdr k ∈ evs ∧ ∃ b, ch k = some b ∧ IsEmpty b) := by
+  intro k hk
+  obtain ⟨d, hm⟩ := mem_keys.mp hk
+  rcases hs.dat k d hm with ⟨h, _⟩ | ⟨b, hb, _, hsrc⟩
+  · cases h
+  · exact hsrc.imp id (fun ⟨x, y⟩ => ⟨x, b, hb, y⟩)
+
+theorem SafeJ.mono (hs : SafeJ jk c ch h0 evs n) {evs' : List Ev} (hsub : ∀ e, e ∈ evs → e ∈ evs') :
+    SafeJ jk c ch h0 evs' n :=
   { hs with
     hdrSrc := fun k hk => hsub _ (hs.hdrSrc k hk)
-    datSrc := fun k hk => (hs.datSrc k hk).imp (hsub _) (fun ⟨a, b⟩ => ⟨hsub _ a, b⟩)
+    dat := fun k d hm => (hs.dat k d hm).imp id (fun h => h.mono hsub)
     sound := fun k a b => (hs.sound k a b).mono hsub }
 
-theorem Safe.hs (g : GoodChain c ch top) (hs : Safe c ch h0 evs n) : n.store.height = n.lastState.lastHeight := by
+/-- runs without junk are runs with (possibly) junk -/
+theorem SafeJ.weaken (hs : SafeJ jk c ch h0 evs n) : SafeJ true c ch h0 evs n :=
+  { hs with dat := fun k d hm => (hs.dat k d hm).imp (fun ⟨_, x⟩ => ⟨rfl, x⟩) id }
+
+theorem SafeJ.hs (g : GoodChain c ch top) (hs : SafeJ jk c ch h0 evs n) : n.store.height = n.lastState.lastHeight := by
   rw [hs.st, stateAt_lastHeight g]
   by_cases h : n.store.height + 1 = c.initialHeight
   · exact Or.inl h
@@ -61,35 +100,15 @@ theorem Safe.hs (g : GoodChain c ch top) (hs : Safe c ch h0 evs n) : n.store.hei
     simp [hb]
 
 /-- the safety invariant does not mention the seen-sets -/
-theorem Safe.seen (hs : Safe c ch h0 evs n) (sH sD : List Bytes) :
-    Safe c ch h0 evs { n with seenH := sH, seenD := sD } :=
-  ⟨hs.alive, hs.ge, hs.low, hs.st, hs.disk, hs.gen, hs.chain, hs.hdrGen, hs.datGen, hs.hdrSrc, hs.datSrc, hs.sound, hs.wm⟩
+theorem SafeJ.seen (hs : SafeJ jk c ch h0 evs n) (sH sD : List Bytes) :
+    SafeJ jk c ch h0 evs { n with seenH := sH, seenD := sD } :=
+  ⟨hs.alive, hs.ge, hs.low, hs.st, hs.disk, hs.gen, hs.chain, hs.hdrGen, hs.dat, hs.hdrSrc, hs.sound, hs.wm⟩
 
-/-- what one loop iteration does on a node satisfying the invariant -/
-theorem applyNext_cases (g : GoodChain c ch top) (hs : Safe c ch h0 evs n) :
-    (applyNext n .ok = none ∧ ¬ (n.store.height + 1 ∈ keysH n ∧ n.store.height + 1 ∈ keysD n)) ∨
-    ∃ b d, ch (n.store.height + 1) = some b ∧ GoodData b d ∧
-      n.store.height + 1 ∈ keysH n ∧ n.store.height + 1 ∈ keysD n ∧
-      applyNext n .ok = some (advance n b.sh d, blockWrites n b.sh d, true) := by
-  cases hH : getH n (n.store.height + 1) with
-  | none => exact Or.inl ⟨applyNext_none (Or.inl hH), fun h => getH_none.mp hH h.1⟩
-  | some sh =>
-    cases hD : getD n (n.store.height + 1) with
-    | none => exact Or.inl ⟨applyNext_none (Or.inr hD), fun h => getD_none.mp hD h.2⟩
-    | some d =>
-      right
-      obtain ⟨b, hb, rfl⟩ := hs.hdrGen _ _ (getH_some hH)
-      obtain ⟨b', hb', hgd⟩ := hs.datGen _ _ (getD_some hD)
-      rw [hb] at hb'; cases hb'
-      have hv : execValidate n.lastState b.sh d = none := by
-        rw [hs.st]
-        have := g.valid _ b hb
-        simp only [Nat.add_sub_cancel] at this
-        exact execValidate_swap this hgd.2.1
-      refine ⟨b, d, hb, hgd, mem_keys.mpr ⟨_, getH_some hH⟩, mem_keys.mpr ⟨_, getD_some hD⟩, ?_⟩
-      exact applyNext_ok hH hD hv (g.facts hb).height
+/-- a genuine header validates against junk data never: `GoodData` and `Junk` exclude each other on the chain -/
+theorem not_junk_of_good {k : Nat} {b : Block} {d : Data} (hb : ch k = some b) (hg : GoodData b d) : ¬ Junk ch k d :=
+  fun hj => hj b hb hg.2.1
 
-theorem stateAfter_eq (g : GoodChain c ch top) (hs : Safe c ch h0 evs n) {b : Block} {d : Data}
+theorem stateAfter_eq (g : GoodChain c ch top) (hs : SafeJ jk c ch h0 evs n) {b : Block} {d : Data}
     (hb : ch (n.store.height + 1) = some b) (hd : GoodData b d) :
     stateAfter n b.sh d = stateAt c ch (n.store.height + 1) := by
   unfold stateAfter
@@ -99,13 +118,110 @@ theorem stateAfter_eq (g : GoodChain c ch top) (hs : Safe c ch h0 evs n) {b : Bl
 theorem sameBlock_blockOf {b : Block} {d : Data} (hd : GoodData b d) : SameBlock b (blockOf b.sh d) :=
   ⟨rfl, rfl, hd.1, hd.2.2⟩
 
-theorem advance_safe (g : GoodChain c ch top) (hs : Safe c ch h0 evs n) {b : Block} {d : Data}
+theorem emptyDataFor_some {n : FNode} {h : Header} {d : Data} (he : emptyDataFor n h = some d) :
+    h.dataHash = emptyDataHash ∧ d.txs = [] ∧
+    ∃ ldh, d.metadata = some { chainId := h.chainId, height := h.height, time := h.time, lastDataHash := ldh } := by
+  unfold emptyDataFor at he
+  split at he
+  · rename_i hh
+    simp only [Option.some.injEq] at he
+    subst he
+    exact ⟨hh, rfl, _, rfl⟩
+  · simp at he
+
+theorem emptyDataFor_none {n : FNode} {h : Header} (he : emptyDataFor n h = none) : h.dataHash ≠ emptyDataHash := by
+  unfold emptyDataFor at he
+  split at he
+  · simp at he
+  · assumption
+
+theorem goodData_self (g : GoodChain c ch top) {k : Nat} {b : Block} (hb : ch k = some b) : GoodData b b.data :=
+  ⟨rfl, (g.facts hb).vdata, fun _ => rfl⟩
+
+theorem goodData_empty (g : GoodChain c ch top) {k : Nat} {b : Block} (hb : ch k = some b) {n : FNode} {d : Data}
+    (he : emptyDataFor n b.sh.hdr = some d) : GoodData b d := by
+  obtain ⟨h1, h2, ldh, h3⟩ := emptyDataFor_some he
+  have ht : b.data.txs = [] := g.emptyTxs k b hb h1
+  refine ⟨by rw [h2, ht], ?_, fun h => absurd ht h⟩
+  unfold validateData
+  rw [h3]
+  simp only [ne_eq, not_true_eq_false, or_self, ↓reduceIte]
+  rw [daCommitment_empty d h2, h1]
+  simp
+
+/-- the proposer's signed header is well-formed -/
+theorem GoodChain.basic (g : GoodChain c ch top) {k : Nat} {b : Block} (hb : ch k = some b) : validateBasic b.sh = none := by
+  have hv := g.valid k b hb
+  unfold execValidate at hv
+  split at hv
+  · simp at hv
+  · assumption
+
+/-- a genuine header with usable data validates against the node's state -/
+theorem valid_next (g : GoodChain c ch top) (hs : SafeJ jk c ch h0 evs n) {b : Block} {d : Data}
+    (hb : ch (n.store.height + 1) = some b) (hgd : GoodData b d) : execValidate n.lastState b.sh d = none := by
+  rw [hs.st]
+  have := g.valid _ b hb
+  simp only [Nat.add_sub_cancel] at this
+  exact execValidate_swap this hgd.2.1
+
+/-- what one loop iteration does on a node satisfying the invariant: nothing (a part is missing); or the proposer's
+block of the next height is applied, with data that is genuine and was delivered; or (only when junk data may have
+been delivered) the cached data does not match the header and is dropped — the loop does **not** die -/
+theorem applyNext_casesJ (g : GoodChain c ch top) (hs : SafeJ jk c ch h0 evs n) :
+    (applyNext n .ok = none ∧ ¬ (n.store.height + 1 ∈ keysH n ∧ n.store.height + 1 ∈ keysD n)) ∨
+    (∃ b d, ch (n.store.height + 1) = some b ∧ GoodData b d ∧
+      (Ev.dat (n.store.height + 1) ∈ evs ∨ (Ev.hdr (n.store.height + 1) ∈ evs ∧ IsEmpty b)) ∧
+      n.store.height + 1 ∈ keysH n ∧ n.store.height + 1 ∈ keysD n ∧
+      applyNext n .ok = some (advance n b.sh d, blockWrites n b.sh d, true)) ∨
+    (jk = true ∧ n.store.height + 1 ∈ keysH n ∧ applyNext n .ok = some (dropData n, [], false)) := by
+  cases hH : getH n (n.store.height + 1) with
+  | none => exact Or.inl ⟨applyNext_none (Or.inl hH), fun h => getH_none.mp hH h.1⟩
+  | some sh =>
+    cases hD : getD n (n.store.height + 1) with
+    | none => exact Or.inl ⟨applyNext_none (Or.inr hD), fun h => getD_none.mp hD h.2⟩
+    | some d =>
+      right
+      obtain ⟨b, hb, rfl⟩ := hs.hdrGen _ _ (getH_some hH)
+      have hkH : n.store.height + 1 ∈ keysH n := mem_keys.mpr ⟨_, getH_some hH⟩
+      have hkD : n.store.height + 1 ∈ keysD n := mem_keys.mpr ⟨_, getD_some hD⟩
+      rcases hs.dat _ _ (getD_some hD) with ⟨hj, hjunk⟩ | ⟨b', hb', hgd, hsrc⟩
+      · have hbasic := g.basic hb
+        have hmis := hjunk b hb
+        by_cases he : IsEmpty b
+        · left
+          obtain ⟨d', hed⟩ : ∃ d', emptyDataFor (dropData n) b.sh.hdr = some d' := by
+            have he' : b.sh.hdr.dataHash = emptyDataHash := he
+            unfold emptyDataFor; rw [if_pos he']; exact ⟨_, rfl⟩
+          have hgd := goodData_empty g hb hed
+          exact ⟨b, d', hb, hgd, Or.inr ⟨hs.hdrSrc _ hkH, he⟩, hkH, hkD,
+            applyNext_rebuild hH hD hbasic hmis hed (g.facts hb).height (valid_next g hs hb hgd)⟩
+        · right
+          exact ⟨hj, hkH, applyNext_drop hH hD hbasic hmis he⟩
+      · left
+        rw [hb] at hb'; cases hb'
+        exact ⟨b, d, hb, hgd, hsrc, hkH, hkD, applyNext_ok hH hD (valid_next g hs hb hgd) (g.facts hb).height⟩
+
+/-- without junk: nothing, or the next block of the chain is applied -/
+theorem applyNext_cases (g : GoodChain c ch top) (hs : Safe c ch h0 evs n) :
+    (applyNext n .ok = none ∧ ¬ (n.store.height + 1 ∈ keysH n ∧ n.store.height + 1 ∈ keysD n)) ∨
+    ∃ b d, ch (n.store.height + 1) = some b ∧ GoodData b d ∧
+      (Ev.dat (n.store.height + 1) ∈ evs ∨ (Ev.hdr (n.store.height + 1) ∈ evs ∧ IsEmpty b)) ∧
+      n.store.height + 1 ∈ keysH n ∧ n.store.height + 1 ∈ keysD n ∧
+      applyNext n .ok = some (advance n b.sh d, blockWrites n b.sh d, true) := by
+  rcases applyNext_casesJ g hs with h | h | ⟨h, _⟩
+  · exact Or.inl h
+  · exact Or.inr h
+  · cases h
+
+theorem advance_safe (g : GoodChain c ch top) (hs : SafeJ jk c ch h0 evs n) {b : Block} {d : Data}
     (hb : ch (n.store.height + 1) = some b) (hd : GoodData b d)
-    (hkH : n.store.height + 1 ∈ keysH n) (hkD : n.store.height + 1 ∈ keysD n) :
-    Safe c ch h0 evs (advance n b.sh d) := by
+    (hkH : n.store.height + 1 ∈ keysH n)
+    (hsrc : Ev.dat (n.store.height + 1) ∈ evs ∨ (Ev.hdr (n.store.height + 1) ∈ evs ∧ IsEmpty b)) :
+    SafeJ jk c ch h0 evs (advance n b.sh d) := by
   have hst := stateAfter_eq g hs hb hd
   have hh := advance_height n b.sh d
-  refine ⟨hs.alive, ?_, ?_, ?_, ?_, ?_, ?_, ?_, ?_, ?_, ?_, ?_, hs.wm.kv (advance_kv _ _ _)⟩
+  refine ⟨hs.alive, ?_, ?_, ?_, ?_, ?_, ?_, ?_, ?_, ?_, ?_, hs.wm.kv (advance_kv _ _ _)⟩
   · rw [hh]; have := hs.ge; omega
   · rw [hh]; have := hs.low; omega
   · rw [hh]; exact hst
@@ -121,20 +237,20 @@ theorem advance_safe (g : GoodChain c ch top) (hs : Safe c ch h0 evs n) {b : Blo
   · intro k sh hm
     exact hs.hdrGen k sh (mem_filter_ne.mp hm).1
   · intro k d' hm
-    exact hs.datGen k d' (mem_filter_ne.mp hm).1
+    exact hs.dat k d' (mem_filter_ne.mp hm).1
   · intro k hk
     exact hs.hdrSrc k (keys_filter_ne.mp hk).1
-  · intro k hk
-    exact hs.datSrc k (keys_filter_ne.mp hk).1
   · intro k h1 h2
     rw [hh] at h2
     by_cases hk : k = n.store.height + 1
     · subst hk
-      refine ⟨b, hb, hs.hdrSrc _ hkH, ?_⟩
-      rcases hs.datSrc _ hkD with h | ⟨_, b', hb', he⟩
-      · exact Or.inr h
-      · rw [hb] at hb'; cases hb'; exact Or.inl he
+      exact ⟨b, hb, hs.hdrSrc _ hkH, hsrc.symm.imp (fun x => x.2) id⟩
     · exact hs.sound k h1 (by omega)
+
+/-- dropping the cached data of the next height keeps the invariant -/
+theorem dropData_safe (hs : SafeJ jk c ch h0 evs n) : SafeJ jk c ch h0 evs (dropData n) :=
+  ⟨hs.alive, hs.ge, hs.low, hs.st, hs.disk, hs.gen, hs.chain, hs.hdrGen,
+   fun k d hm => hs.dat k d (mem_filter_ne.mp hm).1, hs.hdrSrc, hs.sound, hs.wm⟩
 
 /-! ## the durable writes of a step -/
 
@@ -174,23 +290,59 @@ theorem trySync_step_some {fuel : Nat} {n' : FNode} {ws' : List SW} (h : applyNe
   simp only [↓reduceIte]
   rw [trySync_acc]; simp
 
-theorem trySync_safe (g : GoodChain c ch top) : ∀ (fuel : Nat) (n : FNode), Safe c ch h0 evs n →
-    Safe c ch h0 evs (trySync fuel n []).1 ∧
+theorem trySync_step_stop {fuel : Nat} {n' : FNode} {ws' : List SW} (h : applyNext n .ok = some (n', ws', false)) :
+    trySync (fuel + 1) n [] = (n', ws') := by
+  rw [trySync, h]; simp
+
+theorem trySync_safe (g : GoodChain c ch top) : ∀ (fuel : Nat) (n : FNode), SafeJ jk c ch h0 evs n →
+    SafeJ jk c ch h0 evs (trySync fuel n []).1 ∧
     AppliedWrites c ch n.store.height (trySync fuel n []).2 (trySync fuel n []).1.store.height := by
   intro fuel
   induction fuel with
   | zero => intro n hs; exact ⟨hs, .nil _⟩
   | succ f ih =>
     intro n hs
-    rcases applyNext_cases g hs with ⟨hn, _⟩ | ⟨b, d, hb, hd, hkH, hkD, he⟩
+    rcases applyNext_casesJ g hs with ⟨hn, _⟩ | ⟨b, d, hb, hd, hsrc, hkH, _, he⟩ | ⟨_, _, he⟩
     · rw [trySync_step_none hn]; exact ⟨hs, .nil _⟩
     · rw [trySync_step_some he]
-      have hs' := advance_safe g hs hb hd hkH hkD
+      have hs' := advance_safe g hs hb hd hkH hsrc
       obtain ⟨a1, a2⟩ := ih _ hs'
       refine ⟨a1, ?_⟩
       rw [advance_height] at a2
       simp only [blockWrites, stateAfter_eq g hs hb hd, List.cons_append, List.nil_append]
       exact .cons hb (sameBlock_blockOf hd) a2
+    · rw [trySync_step_stop he]; exact ⟨dropData_safe hs, .nil _⟩
+
+/-! ## no block is applicable after a step (`Quiet`) — from the safety invariant alone -/
+
+/-- no block is applicable: header or data of the next height is missing -/
+def Quiet (n : FNode) : Prop := ¬ (n.store.height + 1 ∈ keysH n ∧ n.store.height + 1 ∈ keysD n)
+
+theorem applyNext_quiet (hq : Quiet n) : applyNext n .ok = none := by
+  by_cases h : n.store.height + 1 ∈ keysH n
+  · exact applyNext_none (Or.inr (getD_none.mpr (fun hd => hq ⟨h, hd⟩)))
+  · exact applyNext_none (Or.inl (getH_none.mpr h))
+
+theorem dropData_quiet (n : FNode) : Quiet (dropData n) := by
+  intro ⟨_, h⟩
+  have := (keys_filter_ne (l := n.datCache) (k := n.store.height + 1) (j := n.store.height + 1)).mp h
+  exact this.2 rfl
+
+/-- `trySync` with enough fuel (one unit per cached header, plus one) runs until no block is applicable -/
+theorem trySync_quiet (g : GoodChain c ch top) : ∀ (fuel : Nat) (n : FNode), SafeJ jk c ch h0 evs n →
+    n.hdrCache.length < fuel → Quiet (trySync fuel n []).1 := by
+  intro fuel
+  induction fuel with
+  | zero => intro n _ h; omega
+  | succ f ih =>
+    intro n hs hlen
+    rcases applyNext_casesJ g hs with ⟨hn, hq⟩ | ⟨b, d, hb, hd, hsrc, hkH, _, he⟩ | ⟨_, _, he⟩
+    · rw [trySync_step_none hn]; exact hq
+    · rw [trySync_step_some he]
+      apply ih _ (advance_safe g hs hb hd hkH hsrc)
+      have : (advance n b.sh d).hdrCache.length < n.hdrCache.length := length_filter_ne_lt hkH
+      omega
+    · rw [trySync_step_stop he]; exact dropData_quiet n
 
 /-! ## the event cases -/
 
@@ -226,37 +378,6 @@ theorem onData_eq (n : FNode) (d : Data) : onData n d =
       else syncAfter (cacheD n m.height d) := rfl
 
 
-theorem emptyDataFor_some {n : FNode} {h : Header} {d : Data} (he : emptyDataFor n h = some d) :
-    h.dataHash = emptyDataHash ∧ d.txs = [] ∧
-    ∃ ldh, d.metadata = some { chainId := h.chainId, height := h.height, time := h.time, lastDataHash := ldh } := by
-  unfold emptyDataFor at he
-  split at he
-  · rename_i hh
-    simp only [Option.some.injEq] at he
-    subst he
-    exact ⟨hh, rfl, _, rfl⟩
-  · simp at he
-
-theorem emptyDataFor_none {n : FNode} {h : Header} (he : emptyDataFor n h = none) : h.dataHash ≠ emptyDataHash := by
-  unfold emptyDataFor at he
-  split at he
-  · simp at he
-  · assumption
-
-theorem goodData_self (g : GoodChain c ch top) {k : Nat} {b : Block} (hb : ch k = some b) : GoodData b b.data :=
-  ⟨rfl, (g.facts hb).vdata, fun _ => rfl⟩
-
-theorem goodData_empty (g : GoodChain c ch top) {k : Nat} {b : Block} (hb : ch k = some b) {n : FNode} {d : Data}
-    (he : emptyDataFor n b.sh.hdr = some d) : GoodData b d := by
-  obtain ⟨h1, h2, ldh, h3⟩ := emptyDataFor_some he
-  have ht : b.data.txs = [] := g.emptyTxs k b hb h1
-  refine ⟨by rw [h2, ht], ?_, fun h => absurd ht h⟩
-  unfold validateData
-  rw [h3]
-  simp only [ne_eq, not_true_eq_false, or_self, ↓reduceIte]
-  rw [daCommitment_empty d h2, h1]
-  simp
-
 /-- caching a header of the chain above the current height -/
 theorem cacheH_cases (g : GoodChain c ch top) {k : Nat} {b : Block} (hb : ch k = some b) (n : FNode) :
     (IsEmpty b ∧ ∃ d, GoodData b d ∧
@@ -275,13 +396,13 @@ theorem cacheH_store (n : FNode) (sh : SHeader) : (cacheH n sh).store = n.store 
 theorem mem_append_single {α : Type} {l : List α} {a x : α} : x ∈ l → x ∈ l ++ [a] :=
   fun h => List.mem_append_left _ h
 
-theorem cacheH_safe (g : GoodChain c ch top) (hs : Safe c ch h0 evs n) {k : Nat} {b : Block} (hb : ch k = some b) :
-    Safe c ch h0 (evs ++ [Ev.hdr k]) (cacheH n b.sh) := by
+theorem cacheH_safe (g : GoodChain c ch top) (hs : SafeJ jk c ch h0 evs n) {k : Nat} {b : Block} (hb : ch k = some b) :
+    SafeJ jk c ch h0 (evs ++ [Ev.hdr k]) (cacheH n b.sh) := by
   have hs' := hs.mono (evs' := evs ++ [Ev.hdr k]) (fun _ => mem_append_single)
   have hnew : Ev.hdr k ∈ evs ++ [Ev.hdr k] := by simp
   rcases cacheH_cases g hb n with ⟨he, d, hd, e⟩ | ⟨he, e⟩
   · rw [e]
-    refine ⟨hs'.alive, hs'.ge, hs'.low, hs'.st, hs'.disk, hs'.gen, hs'.chain, ?_, ?_, ?_, ?_, hs'.sound, hs'.wm⟩
+    refine ⟨hs'.alive, hs'.ge, hs'.low, hs'.st, hs'.disk, hs'.gen, hs'.chain, ?_, ?_, ?_, hs'.sound, hs'.wm⟩
     · intro j sh hm
       simp only [List.mem_cons, Prod.mk.injEq] at hm
       rcases hm with ⟨rfl, rfl⟩ | hm
@@ -290,20 +411,15 @@ theorem cacheH_safe (g : GoodChain c ch top) (hs : Safe c ch h0 evs n) {k : Nat}
     · intro j d' hm
       simp only [List.mem_cons, Prod.mk.injEq] at hm
       rcases hm with ⟨rfl, rfl⟩ | hm
-      · exact ⟨b, hb, hd⟩
-      · exact hs.datGen j d' hm
+      · exact Or.inr ⟨b, hb, hd, Or.inr ⟨hnew, he⟩⟩
+      · exact hs'.dat j d' hm
     · intro j hj
       simp only [keysH, keys_cons, List.mem_cons] at hj
       rcases hj with rfl | hj
       · exact hnew
       · exact hs'.hdrSrc j hj
-    · intro j hj
-      simp only [keysD, keys_cons, List.mem_cons] at hj
-      rcases hj with rfl | hj
-      · exact Or.inr ⟨hnew, b, hb, he⟩
-      · exact hs'.datSrc j hj
   · rw [e]
-    refine ⟨hs'.alive, hs'.ge, hs'.low, hs'.st, hs'.disk, hs'.gen, hs'.chain, ?_, hs'.datGen, ?_, hs'.datSrc, hs'.sound, hs'.wm⟩
+    refine ⟨hs'.alive, hs'.ge, hs'.low, hs'.st, hs'.disk, hs'.gen, hs'.chain, ?_, hs'.dat, ?_, hs'.sound, hs'.wm⟩
     · intro j sh hm
       simp only [List.mem_cons, Prod.mk.injEq] at hm
       rcases hm with ⟨rfl, rfl⟩ | hm
@@ -315,28 +431,33 @@ theorem cacheH_safe (g : GoodChain c ch top) (hs : Safe c ch h0 evs n) {k : Nat}
       · exact hnew
       · exact hs'.hdrSrc j hj
 
-theorem cacheD_safe (g : GoodChain c ch top) (hs : Safe c ch h0 evs n) {k : Nat} {b : Block} (hb : ch k = some b) :
-    Safe c ch h0 (evs ++ [Ev.dat k]) (cacheD n k b.data) := by
+theorem cacheD_safe (g : GoodChain c ch top) (hs : SafeJ jk c ch h0 evs n) {k : Nat} {b : Block} (hb : ch k = some b) :
+    SafeJ jk c ch h0 (evs ++ [Ev.dat k]) (cacheD n k b.data) := by
   have hs' := hs.mono (evs' := evs ++ [Ev.dat k]) (fun _ => mem_append_single)
   have hnew : Ev.dat k ∈ evs ++ [Ev.dat k] := by simp
-  refine ⟨hs'.alive, hs'.ge, hs'.low, hs'.st, hs'.disk, hs'.gen, hs'.chain, hs'.hdrGen, ?_, hs'.hdrSrc, ?_, hs'.sound, hs'.wm⟩
-  · intro j d' hm
-    simp only [cacheD, List.mem_cons, Prod.mk.injEq] at hm
-    rcases hm with ⟨rfl, rfl⟩ | hm
-    · exact ⟨b, hb, goodData_self g hb⟩
-    · exact hs.datGen j d' hm
-  · intro j hj
-    simp only [keysD, cacheD, keys_cons, List.mem_cons] at hj
-    rcases hj with rfl | hj
-    · exact Or.inl hnew
-    · exact hs'.datSrc j hj
+  refine ⟨hs'.alive, hs'.ge, hs'.low, hs'.st, hs'.disk, hs'.gen, hs'.chain, hs'.hdrGen, ?_, hs'.hdrSrc, hs'.sound, hs'.wm⟩
+  intro j d' hm
+  simp only [cacheD, List.mem_cons, Prod.mk.injEq] at hm
+  rcases hm with ⟨rfl, rfl⟩ | hm
+  · exact Or.inr ⟨b, hb, goodData_self g hb, Or.inl hnew⟩
+  · exact hs'.dat j d' hm
 
-theorem syncAfter_safe (g : GoodChain c ch top) (hs : Safe c ch h0 evs n) :
-    Safe c ch h0 evs (syncAfter n).1 ∧ AppliedWrites c ch n.store.height (syncAfter n).2 (syncAfter n).1.store.height :=
+/-- caching a junk data item (only in runs where junk may be delivered) -/
+theorem cacheJ_safe (hs : SafeJ true c ch h0 evs n) {k : Nat} {d : Data} (hj : Junk ch k d) :
+    SafeJ true c ch h0 evs (cacheD n k d) := by
+  refine ⟨hs.alive, hs.ge, hs.low, hs.st, hs.disk, hs.gen, hs.chain, hs.hdrGen, ?_, hs.hdrSrc, hs.sound, hs.wm⟩
+  intro j d' hm
+  simp only [cacheD, List.mem_cons, Prod.mk.injEq] at hm
+  rcases hm with ⟨rfl, rfl⟩ | hm
+  · exact Or.inl ⟨rfl, hj⟩
+  · exact hs.dat j d' hm
+
+theorem syncAfter_safe (g : GoodChain c ch top) (hs : SafeJ jk c ch h0 evs n) :
+    SafeJ jk c ch h0 evs (syncAfter n).1 ∧ AppliedWrites c ch n.store.height (syncAfter n).2 (syncAfter n).1.store.height :=
   trySync_safe g _ n hs
 
 /-- the header case of the loop, on a node satisfying the invariant -/
-theorem onHeader_cases (g : GoodChain c ch top) (hs : Safe c ch h0 evs n) {k : Nat} {b : Block} (hb : ch k = some b) :
+theorem onHeader_cases (g : GoodChain c ch top) (hs : SafeJ jk c ch h0 evs n) {k : Nat} {b : Block} (hb : ch k = some b) :
     ((k ≤ n.store.height ∨ b.sh.hdr.hash ∈ n.seenH) ∧ onHeader n b.sh = (n, [])) ∨
     (¬ (k ≤ n.store.height ∨ b.sh.hdr.hash ∈ n.seenH) ∧
       onHeader n b.sh = (markH (syncAfter (cacheH n b.sh)).1 b.sh.hdr.hash, (syncAfter (cacheH n b.sh)).2)) := by
@@ -368,7 +489,7 @@ theorem onData_empty (g : GoodChain c ch top) {k : Nat} {b : Block} (hb : ch k =
     · rfl
     · simp [ht]
 
-theorem onData_cases (g : GoodChain c ch top) (hs : Safe c ch h0 evs n) {k : Nat} {b : Block} (hb : ch k = some b)
+theorem onData_cases (g : GoodChain c ch top) (hs : SafeJ jk c ch h0 evs n) {k : Nat} {b : Block} (hb : ch k = some b)
     (hne : ¬ IsEmpty b) :
     ((b.data.daCommitment ∈ n.seenD ∨ k ≤ n.store.height) ∧ onData n b.data = (n, [])) ∨
     (¬ (b.data.daCommitment ∈ n.seenD ∨ k ≤ n.store.height) ∧
@@ -385,8 +506,8 @@ theorem onData_cases (g : GoodChain c ch top) (hs : Safe c ch h0 evs n) {k : Nat
       exact Or.inr ⟨by simp [h1, h2], rfl⟩
 
 /-- **every genuine event preserves the safety invariant**, and its writes apply consecutive blocks -/
-theorem deliver_safe (g : GoodChain c ch top) (hs : Safe c ch h0 evs n) (e : Ev) :
-    Safe c ch h0 (evs ++ [e]) (deliver ch n e).1 ∧
+theorem deliver_safe (g : GoodChain c ch top) (hs : SafeJ jk c ch h0 evs n) (e : Ev) :
+    SafeJ jk c ch h0 (evs ++ [e]) (deliver ch n e).1 ∧
     AppliedWrites c ch n.store.height (deliver ch n e).2 (deliver ch n e).1.store.height := by
   have hs' := hs.mono (evs' := evs ++ [e]) (fun _ => mem_append_single)
   cases e with
@@ -416,5 +537,80 @@ theorem deliver_safe (g : GoodChain c ch top) (hs : Safe c ch h0 evs n) (e : Ev)
           obtain ⟨a1, a2⟩ := syncAfter_safe g (cacheD_safe g hs hb)
           exact ⟨a1.seen _ _, a2⟩
 
+theorem syncAfter_quiet (g : GoodChain c ch top) (hs : SafeJ jk c ch h0 evs n) : Quiet (syncAfter n).1 :=
+  trySync_quiet g _ n hs (Nat.lt_succ_self _)
+
+/-- after every genuine event no block is applicable -/
+theorem deliver_quiet (g : GoodChain c ch top) (hs : SafeJ jk c ch h0 evs n) (hq : Quiet n) (e : Ev) :
+    Quiet (deliver ch n e).1 := by
+  cases e with
+  | hdr k =>
+    simp only [deliver]
+    cases hb : ch k with
+    | none => exact hq
+    | some b =>
+      simp only
+      rcases onHeader_cases g hs hb with ⟨_, e⟩ | ⟨_, e⟩
+      · rw [e]; exact hq
+      · rw [e]; exact syncAfter_quiet g (cacheH_safe g hs hb)
+  | dat k =>
+    simp only [deliver]
+    cases hb : ch k with
+    | none => exact hq
+    | some b =>
+      simp only
+      by_cases he : IsEmpty b
+      · rw [onData_empty g hb he]; exact hq
+      · rcases onData_cases g hs hb he with ⟨_, e⟩ | ⟨_, e⟩
+        · rw [e]; exact hq
+        · rw [e]; exact syncAfter_quiet g (cacheD_safe g hs hb)
+
+/-! ## junk data events: unauthenticated P2P data that does not belong to the header of the height it claims -/
+
+/-- what an arbitrary party can make a node receive as a data event: **any** `Data` whose claimed height lies
+outside the chain, or which `types.Validate` rejects against the proposer's signed header of the height it claims.
+(Data that *does* validate against that header carries the committed transactions, up to a collision of the data
+commitment — that is the genuine data event.) -/
+def JunkData (ch : PChain) (d : Data) : Prop := ∀ m, d.metadata = some m → Junk ch m.height d
+
+/-- **a junk data event never terminates the loop and never corrupts what the node holds**; its writes (it can
+complete nothing by itself, but the drop of an earlier junk item may let an empty block through) apply
+consecutive blocks of the chain -/
+theorem junk_safe (g : GoodChain c ch top) (hs : SafeJ true c ch h0 evs n) {d : Data} (hj : JunkData ch d) :
+    SafeJ true c ch h0 evs (onData n d).1 ∧
+    AppliedWrites c ch n.store.height (onData n d).2 (onData n d).1.store.height := by
+  rw [onData_eq, hs.alive]
+  simp only [Bool.not_true, Bool.false_eq_true, ↓reduceIte]
+  cases hm : d.metadata with
+  | none => exact ⟨hs, .nil _⟩
+  | some m =>
+    simp only
+    split
+    · exact ⟨hs, .nil _⟩
+    · split
+      · exact ⟨hs, .nil _⟩
+      · split
+        · exact ⟨hs, .nil _⟩
+        · obtain ⟨a1, a2⟩ := syncAfter_safe g (cacheJ_safe hs (hj m hm))
+          rw [if_pos a1.alive]
+          exact ⟨a1.seen _ _, a2⟩
+
+theorem junk_quiet (g : GoodChain c ch top) (hs : SafeJ true c ch h0 evs n) (hq : Quiet n) {d : Data}
+    (hj : JunkData ch d) : Quiet (onData n d).1 := by
+  rw [onData_eq, hs.alive]
+  simp only [Bool.not_true, Bool.false_eq_true, ↓reduceIte]
+  cases hm : d.metadata with
+  | none => exact hq
+  | some m =>
+    simp only
+    split
+    · exact hq
+    · split
+      · exact hq
+      · split
+        · exact hq
+        · have a1 := (syncAfter_safe g (cacheJ_safe hs (hj m hm))).1
+          rw [if_pos a1.alive]
+          exact syncAfter_quiet g (cacheJ_safe hs (hj m hm))
 
 end Sync
